@@ -80,9 +80,11 @@ def run(R):
         spec = obs[name]["spec"]
         if not d["result"] or "responses" not in d["result"]:
             continue
+        if str(obs[name]["klass"]).startswith("planted"):
+            continue   # re-nested by tools/gen_planted.py: the request paths of the base application do not apply
         for req, resp in zip(d["requests"], d["result"]["responses"]):
-            if req.get("tag") not in ("plain", "plain-again", "early", "early-all"):
-                continue
+            if req.get("tag") not in ("plain", "plain-again", "early", "early-all") or "route" not in req:
+                continue   # (families that render their routes themselves carry no native route index)
             lines.append(json.dumps({"bp": spec["bp"], "early": req.get("early", [])}))
             keys.append((name, req, resp))
     outs = [json.loads(x) for x in pxvlib.run_model("pipe", lines)] if lines else []
